@@ -12,7 +12,16 @@
 //! `kit::net::Pat` (written from the documentation of HostPattern / core.allowed_network_hosts, most permissive
 //! reading where the documentation is silent) accepts its URI; a call that is not served ends with UriDisallowed.
 //!
+//! Space 4 drives the SDK-BUILT stacks (`Context::resolver()` over ureq, `Context::resolver_async()` over reqwest on a tokio
+//! runtime) with `core.allowed_network_hosts` set through redirect chains of length <= 2: two harness-owned loopback
+//! HTTP/1.1 responders play the chain; Locations are /etc/hosts aliases of 127.0.0.1 (they pass the name-based SSRF
+//! filter, so off-list hops are observable at a responder), an internal literal, an unresolvable name and an unreachable
+//! public address. Oracle: nothing is observed at a responder for a URI the matcher rejects, and a call that stops at a
+//! URI the matcher rejects stops with UriDisallowed (not a DNS/connect error, not a stall).
+//!
 //! Mutants caught (tools/mutant_run.sh D <patch> C26 quick):
+//!   C26-allowlist-outside-redirect-follower.diff  (context.rs nests RestrictedResolver(RedirectResolver(client)): hops bypass the list;
+//!                                                  independently seeded, missed before space 4 existed)
 //!   C26-wildcard-no-dot-boundary.diff  (wildcard match without the '.' boundary test)
 //!   C26-port-ignored.diff              (port comparison dropped)
 
